@@ -5,6 +5,9 @@ import SquidModel.Properties.C45
 #print axioms SquidModel.C45.scenario_is_per_request_decision
 #print axioms SquidModel.C45.accepted_configuration_is_closed
 #print axioms SquidModel.C45.undefined_acl_is_refused
+#print axioms SquidModel.C45.no_usable_rule_denies_everything
+#print axioms SquidModel.C45.registered_method_names_are_themselves
+#print axioms SquidModel.C45.extension_method_is_itself
 #print axioms SquidModel.C45.config_line_words
 #print axioms SquidModel.C45.ip_text_single
 #print axioms SquidModel.C45.ip_text_cidr
